@@ -1,0 +1,55 @@
+//go:build verif
+
+package canonicalizer
+
+// Contracts for govc (see /verif/DESIGN.md). Comment-only file: no code, compiled only with -tags verif.
+
+// ---------------------------------------------------------------------------------------------------------------
+// options.go [C16]
+// ---------------------------------------------------------------------------------------------------------------
+
+//@ func (*funcCanonParserOption).applyProfile
+//@   requires cpo != nil && cpo.f != nil && p != nil
+//@   modifies p.removeUserInfo, p.removePort, p.removeFragment, p.sortQuery, p.repeatedPercentDecoding, p.defaultScheme
+
+//@ func WithRemoveUserInfo
+//@   ensures result != nil
+//@ func WithRemoveUserInfo$1
+//@   requires p != nil
+//@   modifies p.removeUserInfo
+//@   ensures p.removeUserInfo == true   [C16]
+
+//@ func WithRemovePort
+//@   ensures result != nil
+//@ func WithRemovePort$1
+//@   requires p != nil
+//@   modifies p.removePort
+//@   ensures p.removePort == true   [C16]
+
+//@ func WithRemoveFragment
+//@   ensures result != nil
+//@ func WithRemoveFragment$1
+//@   requires p != nil
+//@   modifies p.removeFragment
+//@   ensures p.removeFragment == true   [C16]
+
+//@ func WithRepeatedPercentDecoding
+//@   ensures result != nil
+//@ func WithRepeatedPercentDecoding$1
+//@   requires p != nil
+//@   modifies p.repeatedPercentDecoding
+//@   ensures p.repeatedPercentDecoding == true   [C16]
+
+//@ func WithDefaultScheme
+//@   ensures result != nil
+//@ func WithDefaultScheme$1
+//@   requires p != nil
+//@   modifies p.defaultScheme
+//@   ensures p.defaultScheme == scheme   [C16]
+
+//@ func WithSortQuery
+//@   ensures result != nil
+//@ func WithSortQuery$1
+//@   requires p != nil
+//@   modifies p.sortQuery
+//@   ensures p.sortQuery == sortType   [C16]
